@@ -2,7 +2,7 @@
 from . import _scn
 from ..core import hx
 ID = "C06"
-PROPS = ["F1Verif.Props.C06", "F1Verif.Props.FactsC06", "F1Verif.Props.C06Do", "F1Verif.Props.C06DoGen", "F1Verif.Props.RefineC07", "F1Verif.Props.RefineC17Run", "F1Verif.Props.RefineC06T", "F1Verif.Props.RefineC05R"]
+PROPS = ["F1Verif.Props.C06", "F1Verif.Props.FactsC06", "F1Verif.Props.C06Do", "F1Verif.Props.C06DoGen", "F1Verif.Props.RefineC07", "F1Verif.Props.RefineC17Run", "F1Verif.Props.RefineC06T", "F1Verif.Props.RefineC05R", "F1Verif.Props.RefineC08C"]
 ALSO = ["F1Verif.Props.Handle"]
 RULE = ("engine A (component level): generated scenario programs — where setup, bodies and cleanups register cleanups, "
         "fail or panic (every failure API, five panic kinds, panics mid-stack, cleanups that register cleanups) — are "
@@ -19,6 +19,7 @@ ASSUMPTIONS = ["placement of setup / iterations / teardown inside Run.Do is mirr
 
 def corpus():
     return [
+        "run prop=C06 mode=constant rate=2/100ms dist=none dur=400 conc=4 body=1500 timeout=3000 cancel=700",     # C06m: interrupted while already waiting for the iterations after the duration: the wait goes on
         "scn 3 r1.L7/r2.F|_|r2.r3.N.L9 c1=L1;c2=Pr;c3=L3",
         "scn 2 r1.r2.r3.Pr/L1 c1=L1;c2=Pe;c3=L3",        # setup registers three, second panics, setup itself panics
         "scn 1 _/r1.r2.r3.r4 c1=N;c2=Pv;c3=F;c4=Q",       # every cleanup misbehaves; all four must run
@@ -37,6 +38,8 @@ def corpus():
         "run prop=C06 mode=users conc=2 dur=300 body=2 maxit=15 pushgw=down trackcleanup=1",        # the metrics gateway is down: lifecycle unchanged
         "run prop=C06 mode=users conc=2 dur=300 body=2 maxit=15 pushgw=fail1 setupcleanups=3",
         # a failing setup while the scenario log file cannot be opened: reported failed, no iteration, no crash
+        "cli mode=constant rate=%s dist=%s dur=%s conc=1 bodyms=2500" % (hx("1/s"), hx("none"), hx("1s")),     # C06n: the command's completion timeout is the hard-wired 10 s, not --max-duration
+        "cli mode=users dur=%s conc=2 bodyms=1700" % hx("500ms"),
         "cli mode=users dur=%s conc=2 bodyms=5 setupfail=1 logfile=bad" % hx("200ms"),
         "cli mode=users dur=%s conc=2 bodyms=5 setupfail=2 logfile=bad" % hx("200ms"),
         "cli mode=users dur=%s conc=2 bodyms=5 tdfail=2 logfile=bad" % hx("200ms"),
